@@ -54,7 +54,7 @@ impl ChunkSerializer {
         new_size: u32,
         time: RtmpTimestamp,
     ) -> Result<Packet, ChunkSerializationError> {
-        if new_size > 2147483647 {
+        if new_size == 0 || new_size > 2147483647 {
             return Err(ChunkSerializationError::InvalidMaxChunkSize {
                 attempted_chunk_size: new_size,
             });
